@@ -4,4 +4,6 @@
 set -e
 cd "$(dirname "$0")/harness"
 export CARGO_NET_OFFLINE=true
-cargo build --offline --release --workspace 2>&1 | tail -3
+cargo build --offline --release --workspace --exclude cli 2>&1 | tail -3
+cargo build --offline --profile cli -p cli 2>&1 | tail -3
+cargo build --offline --release -p async-mock --features wakeup 2>&1 | tail -1
